@@ -15,6 +15,7 @@ import (
 	"encoding/json"
 	stderrors "errors"
 	"net/netip"
+	"os"
 	"sync/atomic"
 	"testing"
 	"time"
@@ -51,6 +52,19 @@ type c06udpResult struct {
 	FinalHeld   []string        `json:"final_held"`   // withheld when the flight is over
 	FinalGone   bool            `json:"final_gone"`   // after the TTL the session was collected
 	ExpireWaitMs float64        `json:"expire_wait_ms"`
+	// Slow: real time interfered (a step was delayed by more than a second while the session's real TTL
+	// and the failed-DCID cache run on the wall clock, or the janitor did not collect in time): retry
+	Slow bool `json:"slow,omitempty"`
+}
+
+func c06udpScale() time.Duration {
+	switch os.Getenv("VERIF_TIME_SCALE") {
+	case "4":
+		return 4
+	case "16":
+		return 16
+	}
+	return 1
 }
 
 var c06udpSeq atomic.Uint32
@@ -79,7 +93,8 @@ func c06udpExpire(key PacketSnifferKey) (gone bool, waited float64) {
 	}
 	ps.expiresAtNano.Store(1)
 	t0 := time.Now()
-	for time.Since(t0) < 2*time.Second {
+	// generous: under load the janitor's 250 ms ticker may be served late
+	for time.Since(t0) < 60*time.Second*c06udpScale() {
 		if DefaultPacketSnifferSessionMgr.Get(key) == nil {
 			return true, float64(time.Since(t0).Microseconds()) / 1000
 		}
@@ -109,9 +124,13 @@ func TestVerifC06Udp(t *testing.T) {
 			}
 			out := c06udpStepOut{SameKey: key == firstKey, Payloads: []string{}}
 			if st.Expire {
-				_, w := c06udpExpire(firstKey)
+				g, w := c06udpExpire(firstKey)
 				res.ExpireWaitMs += w
+				if !g || w > 3000 {
+					res.Slow = true // logical time must stay ahead of the wall clock
+				}
 			}
+			stepStart := time.Now()
 			now := base.Add(time.Duration(st.T) * time.Millisecond)
 			func() {
 				defer func() {
@@ -138,12 +157,18 @@ func TestVerifC06Udp(t *testing.T) {
 			}()
 			out.Held, out.Session = c06udpHeld(firstKey)
 			res.Steps = append(res.Steps, out)
+			if time.Since(stepStart) > time.Second {
+				res.Slow = true
+			}
 		}
 		res.FinalHeld, _ = c06udpHeld(firstKey)
 		if cs.FinalExpire {
 			g, w := c06udpExpire(firstKey)
 			res.FinalGone = g
 			res.ExpireWaitMs += w
+			if !g {
+				res.Slow = true
+			}
 		} else if ps := DefaultPacketSnifferSessionMgr.Get(firstKey); ps != nil {
 			_ = DefaultPacketSnifferSessionMgr.Remove(firstKey, ps)
 		}
